@@ -182,3 +182,15 @@ func (lalr *LALR1) GenErrorCode() int {
 func (lalr *LALR1) GenAcceptCode() int {
 	return len(lalr.G.LR0.LR0Closure) + 200
 }
+
+// walk follows the transitions on syms from state q, -1 when there is no such path
+func (lalr *LALR1) walk(q int, syms []*symbol.Symbol) int {
+	for _, sy := range syms {
+		gt := lalr.G.LR0.LR0Closure[q].FindItemClosure(sy)
+		if gt == nil {
+			return -1
+		}
+		q = gt.ItemCl
+	}
+	return q
+}
